@@ -52,6 +52,9 @@ def check_blotter(w, res, payload, where):
             res.violate("duplicate-in-live-list", "%s: order %s twice in the live list" % (where, getattr(o, "_mid", "?")), payload)
         if b[o.id] is not o:
             res.violate("lookup:id", "%s: blotter lookup by id returns another object" % where, payload)
+        # only orders that enter the blotter WITH a bet id are indexed by it: replacement orders (and adopted ones)
+        if getattr(o, "_replacement", False) and o.bet_id is not None and w.fw.markets.get_order_from_bet_id(o.market_id, o.bet_id) is not o:
+            res.violate("lookup:bet-id", "%s: order %s is not found under its bet id %s" % (where, getattr(o, "_mid", "?"), o.bet_id), payload)
     for o in live:
         if o.id not in b:
             res.violate("live-list-holds-unknown-order", "%s: the live list holds an order the blotter does not know" % where, payload)
@@ -66,6 +69,7 @@ def check_blotter(w, res, payload, where):
 
 
 def one_case(res, rng, case, seed):
+    common.use_repo()
     import livedomain as ld
     from flumine.order.order import OrderStatus
     w = ld.LiveWorld(rng, strategy_names=("alpha", "beta"), async_orders=rng.random() < 0.25, truthful=True)
